@@ -205,6 +205,9 @@ def name_from_uri(uri: str):
             comps.append(tlv(T_IMPLICIT_DIGEST, bytes.fromhex(tail)))
         elif sep and head == 'params-sha256':
             comps.append(tlv(T_PARAMS_DIGEST, bytes.fromhex(tail)))
+        elif sep and head.isdigit() and tail.startswith('~rep:'):
+            _r, n, hx = tail.split(':')                     # <type>=~rep:<count>:<hex byte(s)>  (long values, compactly)
+            comps.append(tlv(int(head), bytes.fromhex(hx) * int(n)))
         elif sep and head.isdigit():
             comps.append(tlv(int(head), _pct(tail)))
         else:
